@@ -112,7 +112,8 @@ def make_client(unix):
             self.auth_at = len(self.transport.written())
 
     p = Rec()
-    t = fakes.FakeUnixTransport() if unix else fakes.FakeTransport()
+    t = fakes.wrapped_unix_transport() if unix == 2 else \
+        fakes.FakeUnixTransport() if unix else fakes.FakeTransport()
     p.makeConnection(t)
     return p, t
 
@@ -275,7 +276,7 @@ class ClientScenario(explore.Scenario):
         w = W()
         self._saved = A.os.urandom
         w.unix = bool(self.params['unix'])
-        w.p, w.t = make_client(w.unix)
+        w.p, w.t = make_client(self.params['unix'])
         w.obs = Obs(w.unix)
         w.init_viol = digest_step(w.obs, None, w.t.take(), False, 0, 'start')
         if w.obs.auths != [b'EXTERNAL']:
@@ -472,7 +473,7 @@ def _task_live(task):
             for fd_answer in (b'AGREE_UNIX_FD', b'ERROR',
                               b'ERROR "not supported"'):
                 for ext_data in (False, True):
-                    for unix in (False, True):
+                    for unix in (False, True, 2):
                         done, tr, viol, n = run_handshake(
                             accept, fd_answer, ext_data, unix)
                         cfg = {'accept': [a.decode() for a in accept],
@@ -495,7 +496,7 @@ def _task_live(task):
                             res.count('nontrivial')
                             tag = '%s/%s/fd=%s' % (
                                 '+'.join(cfg['accept']),
-                                'unix' if unix else 'tcp',
+                                ('tcp', 'unix', 'unix-wrapped')[int(unix)],
                                 fd_answer.split()[0].decode())
                             rep = {'part': 'live', 'cfg': cfg,
                                    'cut': list(cut) if cut else None}
@@ -693,10 +694,11 @@ def run(ctx):
         'which of OK-without-GUID / bad GUID / unknown / empty / BEGIN / '
         'unsolicited AGREE_UNIX_FD is "outside the protocol" is fixed in '
         'OUTSIDE']
-    for unix in (0, 1):
+    for unix in (0, 1, 2):
         explore.explore(ctx, ClientScenario, {'unix': unix}, max_depth=30,
                         label='client machine, %s transport'
-                        % ('UNIX' if unix else 'non-UNIX'))
+                        % (('non-UNIX', 'UNIX', 'UNIX (interface provided '
+                            'by the instance, as policy wrappers do)')[unix]))
     ctx.map(_task_live, [ctx.quick])
     depths = (1, 2) if ctx.quick else (1, 2, 3)
     ctx.map(_task_coalesced, [(d, u) for d in depths for u in (False, True)])
